@@ -128,6 +128,8 @@ func c16ScenarioRouting(r *sim.Run) {
 		}
 		r.Logf("C16(b) pairs=%d stay=%v %s %s", n, s.StayNum > 0, strings.Join(sa, " "), strings.Join(sc, " "))
 	}
+	// pion's DTLS/SCTP goroutines run freely between quiescent points from here on
+	r.FreeRunning()
 	s.Trace = func(line string) {
 		if strings.Contains(line, " deliver:") || strings.Contains(line, "sctpconn.go") || strings.Contains(line, "heartbeat.go") {
 			return
